@@ -5,6 +5,9 @@ import nauyaca.protocol.request  # noqa: F401
 import nauyaca.client.session as cs
 from nauyaca.client.protocol import GeminiClientProtocol, TitanClientProtocol
 
+import asyncio as _asyncio
+
+from vf import bind
 from vf.stubs import FakeAsyncio, FakeTransport, MiniFuture, MiniLoop
 from vf.symbuf import SymBuf
 
@@ -81,5 +84,5 @@ class ProtoRun:
 
 def install_loop():
     loop = MiniLoop()
-    cs.asyncio = FakeAsyncio(loop)
+    bind(cs, _asyncio, FakeAsyncio(loop))
     return loop
